@@ -784,6 +784,9 @@ func (w *World) Getters(h *Handle) string {
 			return bad("LatestExecutionPayloadHeader (sub-view root)", got, fmt.Sprintf("%x", want))
 		}
 	}
+	if msg := w.subViews(h); msg != "" {
+		return msg
+	}
 	return ""
 }
 
@@ -811,5 +814,133 @@ func (w *World) Apply(h *Handle, op *Op) (msg string) {
 		return "error: " + err.Error()
 	}
 	op.Model(w, h.Model)
+	return ""
+}
+
+
+// subViews: the typed container sub-views a caller obtains from the state's own tree (checkpoints, fork, eth1 data,
+// latest block header, latest execution payload header): every zero-argument reader method must return the value of
+// the model field of the same name, and Raw() must serialise to the model's bytes.
+func (w *World) subViews(h *Handle) string {
+	cv, ok := reflect.ValueOf(h.Real).Elem().Field(0).Interface().(*view.ContainerView)
+	if !ok {
+		return ""
+	}
+	rename := map[string]string{"Random": "PrevRandao", "ReceiptRoot": "ReceiptsRoot"}
+	norm := func(v reflect.Value) (string, bool) {
+		switch v.Kind() {
+		case reflect.Uint8, reflect.Uint16, reflect.Uint32, reflect.Uint64, reflect.Uint:
+			return fmt.Sprint(v.Uint()), true
+		case reflect.Bool:
+			return fmt.Sprint(v.Bool()), true
+		case reflect.Array:
+			if v.Type().Elem().Kind() == reflect.Uint8 {
+				b := make([]byte, v.Len())
+				for i := range b {
+					b[i] = byte(v.Index(i).Uint())
+				}
+				return fmt.Sprintf("%x", b), true
+			}
+		}
+		return "", false
+	}
+	for i, fd := range cv.ContainerTypeDef.Fields {
+		var sub interface{}
+		var err error
+		var modelField string
+		switch fd.Name {
+		case "previous_justified_checkpoint", "current_justified_checkpoint", "finalized_checkpoint":
+			sub, err = common.AsCheckPoint(cv.Get(uint64(i)))
+			modelField = map[string]string{"previous_justified_checkpoint": "PreviousJustifiedCheckpoint", "current_justified_checkpoint": "CurrentJustifiedCheckpoint", "finalized_checkpoint": "FinalizedCheckpoint"}[fd.Name]
+		case "fork":
+			sub, err = common.AsFork(cv.Get(uint64(i)))
+			modelField = "Fork"
+		case "eth1_data":
+			sub, err = common.AsEth1Data(cv.Get(uint64(i)))
+			modelField = "Eth1Data"
+		case "latest_block_header":
+			sub, err = common.AsBeaconBlockHeader(cv.Get(uint64(i)))
+			modelField = "LatestBlockHeader"
+		case "latest_execution_payload_header":
+			modelField = "LatestExecutionPayloadHeader"
+			switch h.Fork {
+			case 2:
+				sub, err = bellatrix.AsExecutionPayloadHeader(cv.Get(uint64(i)))
+			case 3:
+				sub, err = capella.AsExecutionPayloadHeader(cv.Get(uint64(i)))
+			default:
+				sub, err = deneb.AsExecutionPayloadHeader(cv.Get(uint64(i)))
+			}
+		default:
+			continue
+		}
+		if err != nil {
+			return fmt.Sprintf("typed sub-view of field %s cannot be obtained: %v", fd.Name, err)
+		}
+		mf := fld(h.Model, modelField)
+		sv := reflect.ValueOf(sub)
+		for mi := 0; mi < sv.NumMethod(); mi++ {
+			mt := sv.Type().Method(mi)
+			if mt.Type.NumIn() != 1 || mt.Type.NumOut() != 2 || mt.Type.Out(1).String() != "error" {
+				continue
+			}
+			name := mt.Name
+			outs := sv.Method(mi).Call(nil)
+			if name == "Raw" {
+				if !outs[1].IsNil() {
+					return fmt.Sprintf("%s sub-view: Raw() fails: %v", fd.Name, outs[1].Interface())
+				}
+				raw := outs[0]
+				if raw.Kind() != reflect.Ptr {
+					p := reflect.New(raw.Type())
+					p.Elem().Set(raw)
+					raw = p
+				}
+				var buf bytes.Buffer
+				var serr error
+				switch x := raw.Interface().(type) {
+				case interface {
+					Serialize(w *codec.EncodingWriter) error
+				}:
+					serr = x.Serialize(codec.NewEncodingWriter(&buf))
+				case interface {
+					Serialize(spec *common.Spec, w *codec.EncodingWriter) error
+				}:
+					serr = x.Serialize(w.Spec, codec.NewEncodingWriter(&buf))
+				default:
+					continue
+				}
+				if serr != nil {
+					return fmt.Sprintf("%s sub-view: Raw() does not serialise: %v", fd.Name, serr)
+				}
+				if want := refssz.Encode(mf.Addr().Interface(), w.P); !bytes.Equal(buf.Bytes(), want) {
+					return fmt.Sprintf("%s sub-view: Raw() = %x, the field holds %x", fd.Name, buf.Bytes(), want)
+				}
+				continue
+			}
+			mname := name
+			if r, ok := rename[name]; ok {
+				mname = r
+			}
+			mfv := mf.FieldByName(mname)
+			if !mfv.IsValid() {
+				continue
+			}
+			want, ok1 := norm(mfv)
+			if !ok1 {
+				continue
+			}
+			if !outs[1].IsNil() {
+				return fmt.Sprintf("%s sub-view: %s() fails (%v), the field holds %s", fd.Name, name, outs[1].Interface(), want)
+			}
+			got, ok2 := norm(outs[0])
+			if !ok2 {
+				continue
+			}
+			if got != want {
+				return fmt.Sprintf("%s sub-view: %s() returns %s, the field holds %s", fd.Name, name, got, want)
+			}
+		}
+	}
 	return ""
 }
